@@ -68,6 +68,8 @@ type World struct {
 	iface       *Traced
 	trace       []TraceEvent
 	callCount   map[string]int
+	nrec        int
+	full        bool
 	RecordTrace bool     // record every callback (not only faults and hook events)
 	Faults      []*Fault // fault plan for the next execution(s)
 	// Random supplies bytes for ReadRandom; nil = zeros.
@@ -294,6 +296,7 @@ func (w *World) TxE(src string, signers []common.Address, engine string, args ..
 			w.Codes = saved
 		}
 		res.Logs, res.Events, res.Writes, res.UUIDs, res.Trace = w.logs, w.events, w.writes, w.uuids, w.trace
+		w.record("tx", src, signers, args, engine, res.Class)
 	}()
 	err := w.RT.ExecuteTransaction(
 		runtime.Script{Source: []byte(src), Arguments: args},
@@ -320,6 +323,7 @@ func (w *World) ScriptE(src string, engine string, args ...[]byte) (res Result) 
 		}
 		w.Codes = saved
 		res.Logs, res.Events, res.Writes, res.UUIDs, res.Trace = w.logs, w.events, w.writes, w.uuids, w.trace
+		w.record("script", src, nil, args, engine, res.Class)
 	}()
 	v, err := w.RT.ExecuteScript(
 		runtime.Script{Source: []byte(src), Arguments: args},
